@@ -80,16 +80,17 @@ PROPS = {
                 "content, wrong top level, literals; fuzz: mutated documents and byte soup; distinct = distinct case terms",
         "trusted_base": ["modelled, not verified: nothing below the byte level; strconv.ParseFloat / FormatFloat are re-modelled "
                          "(exact rational arithmetic) and compared on every number case",
-                         "the number round trip is a theorem of the model because its printer re-reads its own text (a guard that never "
-                         "fires on any explored double); the real printer is tied to it by the bit-pattern correspondence only"],
+                         "the model's number printer re-reads its own text; Json/NumShortest.v proves that this guard never fires on a finite "
+                         "double (number_to_json_total), so the round trip is a theorem about the printing algorithm itself; the real "
+                         "NumberToJSON is tied to the model by the bit-pattern correspondence"],
         "assumptions": ["inputs are well-formed UTF-8 (invalid UTF-8 is copied through by the code; outside the property's precondition)"],
         "level_text": "Theorems: byte-identical output for every serialisation of one value; output is a fixed point, parses to the "
                       "same value, is the unique serialisation of a normal form (member names strictly increasing by UTF-16 code "
                       "units, minimal escaping, ES6 number layout, shortest round-trip digits, no white space); duplicate names, "
                       "unterminated strings, raw control characters, invalid escapes, lone surrogates and trailing content are "
-                      "rejected; fuel never causes a rejection. Partial: unterminated arrays / objects are covered by examples and "
-                      "the differential class only. Number TOKENS follow strconv.ParseFloat ('+1', '01', '.5', hex floats, "
-                      "underscores are accepted): modelled as the code behaves; not among the property's rejection classes.",
+                      "rejected; fuel never causes a rejection. Number TOKENS follow strconv.ParseFloat ('+1', '01', '.5', hex floats, "
+                      "underscores are accepted): modelled as the code behaves; not among the property's rejection classes."
+                      " Depth and numbers (Json/JcsDepth.v, Num*.v): every string error class is rejected at any nesting depth and position (value or member name) and the accepted texts are prefix-free up to trailing white space (unterminated arrays / objects / strings at every depth); NumberToJSON is total on finite doubles (the parse-back guard never fires: 17 digits always round-trip), chooses a minimal number of digits, the closest candidate (ties to even), and its output is a JSON number token; ParseFloat rounding is specified exactly (round_rat_iff).",
         "level_note": "Trusted: Coq kernel + vm_compute; generator and its oracles.",
         "technique": "Coq proof (parser / printer model of the canonicalizer with exact number arithmetic) + vm_compute correspondence on "
                      "values x re-serialisations, doubles by bit pattern, tokens, malformed classes and fuzz + oracles on the implementation",
@@ -117,7 +118,8 @@ PROPS = {
                       "suffix data and the embedded delta hashes to the delta hash; every non-canonical encoding is rejected. The "
                       "dependence on the JSON value only is the canonicalizer's value-only theorem (C07) composed with the hash "
                       "model. Tied to the code by concrete differential runs (the model recomputes every hash inside Coq) and by "
-                      "independent standard-library oracles on the implementation.",
+                      "independent standard-library oracles on the implementation."
+                      " Long-form binding (Parser/LongFormBinding.v): for one DID suffix at most one initial state resolves, up to an exhibited SHA-2 collision on suffix data or delta.",
         "level_note": "Trusted: Coq kernel + vm_compute; harness view builder. Collision resistance of SHA-2 is stated as the conclusion "
                       "(a collision is exhibited), never assumed.",
         "technique": "Coq proof (hash / multihash / long-form model with concrete SHA-2 in Coq) + vm_compute correspondence on mutated "
@@ -140,7 +142,8 @@ PROPS = {
                       "under a JWK that decoded, with fixed signature size per curve; the signing input determines header and payload "
                       "(injectivity via base64 round trip, '.' not in the alphabet); compact build/parse round trip; sign-then-verify; "
                       "rejection of every malformed class. Partial: the primitives themselves are exercised (tamper enumeration, foreign "
-                      "keys, twin), not proved.",
+                      "keys, twin), not proved."
+                      " Primitive layer (Jws/Primitive.v): with the signature primitive as a function V, acceptance means V accepted exactly the signing input computed from the decoded header and payload; two strings that verify under one key and differ in header or payload exhibit two different messages accepted by V (tamper evidence); acceptance under another key means V accepted that very message under it.",
         "level_note": "Trusted: Coq kernel + vm_compute; harness incl. its own JWS builder and direct use of Go crypto for the crypto fact; "
                       "hook pkg/verifhooks (build tag verif).",
         "technique": "Coq proof over a model of compact JWS parsing / signing input / verification dispatch + vm_compute correspondence "
@@ -171,7 +174,8 @@ PROPS = {
                       "rules theorems are restated on request bytes; the decoder model is tied to the real decoders by gen_view "
                       "(every generated request, mutated at value and at text level, plus arbitrary bytes: Coq view = Go view and "
                       "Coq verdict = real parser verdict in intake and batch mode). Remaining facts: per-patch validator verdicts, the "
-                      "anchor-origin plug-in, the time validator. Partial: absence of panics is observed under recover.",
+                      "anchor-origin plug-in, the time validator. Partial: absence of panics is observed under recover."
+                      " Exactness (Parser/Exact.v): iff-characterisations of every limit (inclusive), independence of each limit from the others in the model, monotonicity and exact thresholds.",
         "level_note": "Trusted: Coq kernel + vm_compute (SHA-256/512, base64url, varint evaluated inside Coq); harness view builder; go2v.",
         "technique": "Coq proof (acceptance implies rules) over a parser model with concrete hashing + source-regenerated limit guards + "
                      "vm_compute correspondence on mutated requests x boundary configurations",
@@ -196,7 +200,8 @@ PROPS = {
                       "signed hash, the reveal value links to the previous commitment, the framed JWS verifies. Effect: extension "
                       "theorems on the resolution model (a well-formed update / recover / deactivate appended to a resolved history "
                       "yields exactly apply's state). Builder model tied to the real builders, parser model to the real parser and "
-                      "resolution model to the real processor by differential runs over all algorithms.",
+                      "resolution model to the real processor by differential runs over all algorithms."
+                      " Bridge (Resolve/FromView.v): the per-operation facts of the resolution model are COMPUTED from the request view with the parser, hash and JWS models; a built request has all facts true (good_update / good_recover / good_deactivate), and one end-to-end theorem per type states: built from valid inputs, anchored in its window after everything else on a DID whose commitment in force is that of the signing key => Resolve returns exactly the intended state.",
         "level_note": "Trusted: Coq kernel + vm_compute; harness view builder. The signature primitive is an oracle (crypto_ok).",
         "technique": "Coq proof (builder-to-parser completeness, extension of resolution) + vm_compute correspondence of a builder model "
                      "against the real client library x parser x processor for all key types and hash codes",
@@ -250,7 +255,8 @@ PROPS = {
         "level_text": "Theorems: process_txn leaves the store unchanged or appends exactly the stamped first-per-suffix operations (stamp = "
                       "time, number, protocol version, canonical and equivalent references); failing transactions contribute nothing and "
                       "the observer continues; the store only grows; a refused/failed intake leaves queue and unpublished store "
-                      "unchanged. Model tied to TxnProcessor, Observer and DocumentHandler by differential runs with fault injection.",
+                      "unchanged. Model tied to TxnProcessor, Observer and DocumentHandler by differential runs with fault injection."
+                      " List level (Batch/TxnIsolation.v): the observer = closed form (store ++ contributions); a failing transaction can be removed anywhere without changing the result; every stored operation stems from a non-failing transaction and carries its coordinates; at most one stored operation per (suffix, transaction) for distinct coordinates.",
         "level_note": BATCH_NOTE,
         "technique": "Coq proof (store effect, isolation, intake no-trace) + vm_compute correspondence with fault injection + stamp oracle",
     },
@@ -268,7 +274,8 @@ PROPS = {
         "level_text": "Theorems over all documents and patches: add-existing replaces in place, add-new appends, remove deletes and ignores "
                       "absent ids, replace resets; refinement to an independent ordered-map specification; uniqueness of ids preserved; "
                       "atomicity (failure iff some patch fails on its predecessors' result; composition law); PatchesFromDocument round "
-                      "trip. Purity/determinism of the Go heap are checked per generated call, not proved (partial).",
+                      "trip. Purity/determinism of the Go heap are checked per generated call, not proved (partial)."
+                      " The round trip is also proved for the MODELLED json-patch engine (Doc/RoundTripEngine.v: no assumption on the engine; nested objects with distinct member names, as Go maps have).",
         "level_note": DOC_NOTE,
         "technique": "Coq proof (ordered-map refinement, atomicity, round trip) + vm_compute correspondence on generated documents and "
                      "patch lists + purity/determinism oracle on every call",
@@ -294,7 +301,8 @@ PROPS = {
                       "unrepaired third-party engine: two classes of accepted patches kill the process (known findings F11-cycle, "
                       "F11-oom, witnesses proved in the model and reproduced in child processes); every other accepted delta in the "
                       "explored space returns a document or an error. Partial: absence of process death outside the two characterised "
-                      "classes is established by the model's agreement with the real engine on the generated cases, not by a theorem.",
+                      "classes is established by the model's agreement with the real engine on the generated cases, not by a theorem."
+                      " Composer safety (Doc/ComposerSafety.v): on object documents ApplyPatches never panics for set-actions whatever the engine, and for the modelled engine an accepted delta applied to a document reachable by accepted deltas yields a document (reachable again), an error, or death of the process inside the engine, never a composer panic; process death is characterised (run_fatal_iff).",
         "level_note": "Trusted: Coq kernel + vm_compute; generators; child-process isolation (ulimit -v, 64 MB stack, 60 s).",
         "technique": "Coq proof (validator rules, protected-section invariance over a pointer-graph model of the JSON-patch engine) + "
                      "vm_compute correspondence of validator and engine models against the real code in crash-isolated child processes",
@@ -341,7 +349,8 @@ PROPS = {
                       "under the version the ledger stamps. Model tied to the real pipeline by differential runs and independent "
                       "reference oracles on the implementation. Observations (not property violations): the writer re-queues "
                       "deferred operations at the tail, so the anchoring order of one DID's operations may differ from the "
-                      "submission order (fifo_refuted); the batch limit is that of the version in force when cutting.",
+                      "submission order (fifo_refuted); the batch limit is that of the version in force when cutting."
+                      " Eventual storage (Pipeline/Eventual.v): from any reachable state max(1, queue length) rounds of forced flush + observe empty queue and ledger, so every accepted request is stored or discarded as expired, exactly once (needs MaxOperationCount > 0; bound tight).",
         "level_note": "Trusted: Coq kernel + vm_compute; harness (ledger stub, stores, projections); VerifStep hook.",
         "technique": "Coq proof (composition of writer, batch, transaction-processor and resolution models; induction over all event "
                      "sequences; refinement to the reference state machine) + vm_compute correspondence with full-pipeline runs of the "
@@ -392,3 +401,29 @@ PROPS = {
         "assumptions": ["times below 2^62 (Unix seconds)", "single competitor per commitment, co-monotone coordinates (C02 covers the rest)"],
     },
 }
+
+# ---- addenda: theorems added after the first build (resolution level) ----
+_ADD = {
+    "C01": " Bridge (Resolve/FromView.v): on operations whose facts are COMPUTED from the request view, 'authorised' implies the "
+           "signed-request rules, that the commitment consumed is that of the signing key, and that the signature primitive accepted "
+           "the signing input under that key; a request whose signature the primitive refuses is rejected by Apply in every state.",
+    "C02": " Resolve-level corollaries (Resolve/Earliest.v): every applied operation has a point (state, consumed commitments, "
+           "competitors of its chain) at which it is the first eligible one of the prepared list; no eligible published competitor is "
+           "anchored before it (strictly, for distinct coordinates); an unpublished operation is applied only if no published "
+           "competitor is eligible; stated for resolve_full with any options, with non-vacuity on a three-way fork.",
+    "C03": " The resolved state is the left fold of Apply over the chosen create and the applied operations (no hypothesis); on "
+           "strictly ordered causal histories (forks allowed) Resolve equals ONE chronological pass (Resolve/Chrono.v: an operation "
+           "takes effect iff it reveals the commitment in force when it is reached and Apply accepts it), and causality is needed "
+           "(needs_causal); applied operations of a chain never reveal the same commitment (no 'follows' hypothesis any more).",
+    "C04": " Composition (Resolve/IntakeTerminal.v): once the anchored history deactivates, the handler's decorator refuses every "
+           "non-create request for every later extension of the store and every unpublished list; terminality is re-proved without "
+           "the key_inj / no_zero_reveal hypotheses (stable sort; a deactivated chain never consults the candidate map).",
+    "C06": " With additional operations (Resolve/VersionAdditional.v): the resolution option is exactly a merge into the stores "
+           "(every option, full outcome); supplying history through the option equals having it stored (incl. the returned id lists); "
+           "version time = truncation and version id = prefix of the MERGED sorted history; later additions cannot change the past.",
+    "C12": " At resolve level, without the 'follows' hypothesis: NoDup of the commitments revealed by the applied recover/deactivate "
+           "operations and by the applied updates; each applied operation reveals the commitment in force, which was not consumed "
+           "before, and does not re-commit to it or to a consumed one.",
+}
+for _k, _v in _ADD.items():
+    PROPS[_k]["level_text"] += _v
